@@ -33,8 +33,10 @@ def symbols_of(text):
         name = qname if qname is not None else name
         words = attrs.split()
         linkage = next((w for w in words if w in LINKAGES), "external")
+        # visibility style of the symbol (LangRef): `hidden` / `protected` symbols are not visible outside the linked object
+        vis = next((w for w in words if w in ("hidden", "protected")), "default")
         base = re.sub(r"\.\d+$", "", name)
-        out.append({"name": name, "base": base, "kind": kind, "linkage": linkage})
+        out.append({"name": name, "base": base, "kind": kind, "linkage": linkage, "vis": vis})
     return out
 
 
